@@ -6,6 +6,7 @@ CONSTANTS
   Endpoints = {"pause", "continue", "state", "now", "tick", "component", "field", "buffers", "progress"}
   PauseWaits = TRUE
   HoldCtl = TRUE
+  EarlyWalk = {}
   Atomic = FALSE
   Record = FALSE
 INVARIANT TypeOK
